@@ -136,6 +136,12 @@ let () =
       let line = input_line ic in
       match String.split_on_char ' ' (String.trim line) with
       | [] | [""] -> ()
+      | id :: toks when List.exists (starts "split:") toks ->
+          let t = List.find (starts "split:") toks in
+          let ws = split (str_of_string (unhex (after "split:" t))) in
+          Printf.printf "%s ok words=%s ## argc=%d\n" id
+            (if ws = [] then "-" else String.concat "," (List.map (fun w -> hex (string_of_str w)) ws))
+            (List.length ws)
       | id :: toks ->
           (try
              let flags = ref 0 and args = ref [] and cons = ref [] and argv = ref []
